@@ -413,7 +413,7 @@ def gcov_lines(repo, d, lines):
                         "-c", os.path.join(repo, "futex", f), "-o", o], check=True)
         objs.append(o)
     exe = os.path.join(cov, "futex_cov")
-    subprocess.run(["gcc", "-O0", "-g", "-w", "--coverage", "-DWASM_THREADS_PTHREADS", "-I", fs.SCHED, "-I", os.path.join(repo, "w2c2"),
+    subprocess.run(["gcc", "-O0", "-g", "-w", "--coverage", "-DSCHED_GCOV", "-DWASM_THREADS_PTHREADS", "-I", fs.SCHED, "-I", os.path.join(repo, "w2c2"),
                     "-I", os.path.join(repo, "futex")] + srcs + objs + fs.wrap_flags() + ["-o", exe, "-lpthread", "-lm"], check=True)
     fs.run_lines(exe, [ln for ln in lines if ln.startswith("seed ")], timeout=900, jobs=1)
     res = {}
